@@ -12,6 +12,7 @@ import (
 	"runtime/debug"
 	"sort"
 	"strings"
+	"sync/atomic"
 	"time"
 )
 
@@ -56,6 +57,14 @@ type Ctx struct {
 	res      *Result
 	progress *os.File
 	maxSamp  int
+	skip     map[string]bool
+	cur      atomic.Pointer[riskyCase]
+	outFile  string
+}
+
+type riskyCase struct {
+	desc  string
+	start time.Time
 }
 
 func (c *Ctx) Quick() bool    { return c.Tier == "quick" }
@@ -127,20 +136,44 @@ func (c *Ctx) Violation(key, what string, replay any) {
 // NumViolationKeys returns how many distinct keys have been recorded so far.
 func (c *Ctx) NumViolationKeys() int { return len(c.res.Violations) }
 
-// Risky records the case about to be executed in the worker's progress file so that a crash of
-// the whole process (fatal error, out of memory) or a hang can be attributed to it by the parent.
-func (c *Ctx) Risky(desc string) {
+// Risky announces the case about to be executed: it is recorded in the worker's progress file so
+// that a crash of the whole process (fatal error, out of memory) can be attributed to it by the
+// parent, and the worker's watchdog times it (a case exceeding the check's HangLimit makes the
+// worker stop; the parent confirms the hang by re-running the case alone and restarts the shard
+// without it). It returns false if the case must be skipped because it already crashed or hung a
+// previous attempt of this shard (it has been reported). Call Done when the case returns.
+func (c *Ctx) Risky(desc string) bool {
+	if c.skip[desc] {
+		return false
+	}
+	c.cur.Store(&riskyCase{desc: desc, start: time.Now()})
 	if c.progress == nil {
-		return
+		return true
 	}
 	b := []byte(desc)
 	if len(b) > 4000 {
 		b = b[:4000]
 	}
-	buf := make([]byte, 4096)
-	copy(buf, fmt.Sprintf("%04d", len(b)))
-	copy(buf[4:], b)
-	c.progress.WriteAt(buf[:4+len(b)], 0)
+	buf := make([]byte, 0, 4+len(b))
+	buf = append(buf, fmt.Sprintf("%04d", len(b))...)
+	buf = append(buf, b...)
+	c.progress.WriteAt(buf, 0)
+	return true
+}
+
+// Done marks the current risky case as finished.
+func (c *Ctx) Done() { c.cur.Store(nil) }
+
+// watchdog stops the worker when one risky case exceeds limit.
+func (c *Ctx) watchdog(limit time.Duration) {
+	for {
+		time.Sleep(500 * time.Millisecond)
+		rc := c.cur.Load()
+		if rc != nil && time.Since(rc.start) > limit {
+			fmt.Fprintf(os.Stderr, "WATCHDOG: case exceeded %v: %s\n", limit, rc.desc)
+			os.Exit(3)
+		}
+	}
 }
 
 // Guard runs f and converts a panic into a returned description (with a short stack).
